@@ -21,6 +21,7 @@ def step (w : World) (line : String) : World × String :=
   | ["mut", o, m] =>
     match o.toNat?, (match m with
         | "state" => some Mut.state | "resets" => some Mut.resets | "collapse" => some Mut.collapse
+        | "rebind" => some Mut.rebind
         | _ => none) with
     | some o, some m => (w.mut o m, "ok")
     | _, _ => (w, "bad-op")
